@@ -45,6 +45,14 @@ class Raised(Exception):
         self.exc = exc
 
 
+class _Continue(Exception):
+    pass
+
+
+class _Break(Exception):
+    pass
+
+
 class _Return(Exception):
     def __init__(self, value: Any) -> None:
         self.value = value
@@ -65,6 +73,7 @@ class Interp:
         self.max_steps = max_steps
         self.globals_written: Dict[str, Any] = {}  # qualified module global -> value (for `global` stmts)
         self.trace: List[str] = []  # lines of guards taken (for reports)
+        self.class_attrs: Dict[Tuple[str, str], Any] = {}
 
     # ---- entry -------------------------------------------------------------------------
     def call(self, f: FuncInfo, args: Dict[str, Any], bound_cls: Optional[ClassVal] = None,
@@ -129,6 +138,12 @@ class Interp:
             for t in st.targets:
                 if isinstance(t, ast.Name):
                     env.pop(t.id, None)
+                elif isinstance(t, ast.Subscript) and isinstance(self.eval(t.value, env, f), (dict, list)):
+                    cont_ = self.eval(t.value, env, f)
+                    k_ = self.eval(t.slice, env, f)
+                    if isinstance(cont_, dict) and k_ not in cont_:
+                        raise Raised(ExcVal("KeyError", None, {"expr": src(t)}, st.lineno))
+                    del cont_[k_]
                 else:
                     raise Unmodelled(f"{f.qualname}:{st.lineno} del of a non-name target")
         elif isinstance(st, ast.Assign):
@@ -159,9 +174,46 @@ class Interp:
                 it = list(it.keys())
             if not isinstance(it, (list, tuple, set, frozenset)):
                 raise Unmodelled(f"{f.qualname}:{st.lineno} for over non-finite iterable")
+            broke = False
             for x in list(it):
                 self.assign(st.target, x, env, f)
-                self.exec_block(st.body, env, f)
+                try:
+                    self.exec_block(st.body, env, f)
+                except _Continue:
+                    continue
+                except _Break:
+                    broke = True
+                    break
+            if not broke and st.orelse:
+                self.exec_block(st.orelse, env, f)
+        elif isinstance(st, ast.FunctionDef):
+            g = self.P.functions.get(f"{f.qualname}.<locals>.{st.name}")
+            if g is None:
+                raise Unmodelled(f"{f.qualname}:{st.lineno} nested function {st.name} not in the program model")
+
+            def _local(*a_: Any, _g: FuncInfo = g, **k_: Any) -> Any:
+                names_ = [x.arg for x in _g.node.args.posonlyargs + _g.node.args.args]  # type: ignore[attr-defined]
+                if len(a_) > len(names_):
+                    raise Unmodelled(f"too many positional args for {_g.qualname}")
+                amap_ = dict(zip(names_, a_))
+                amap_.update(k_)
+                return self.call(_g, amap_, closure={k: v for k, v in env.items() if k != "__globals__"})
+            env[st.name] = _local
+        elif isinstance(st, ast.While):
+            while self.truth(self.eval(st.test, env, f)):
+                self.steps += 1
+                if self.steps > self.max_steps:
+                    raise Unmodelled(f"{f.qualname}:{st.lineno} while loop exceeds the step budget")
+                try:
+                    self.exec_block(st.body, env, f)
+                except _Continue:
+                    continue
+                except _Break:
+                    break
+        elif isinstance(st, ast.Continue):
+            raise _Continue()
+        elif isinstance(st, ast.Break):
+            raise _Break()
         elif isinstance(st, ast.With):
             for item in st.items:
                 val = self.eval(item.context_expr, env, f)
@@ -216,7 +268,9 @@ class Interp:
             obj = self.eval(t.value, env, f)
             if isinstance(obj, ExternalObj):
                 obj.attrs[t.attr] = v
-            elif isinstance(obj, (ClassVal, ModuleInfo, FuncInfo, dict, list, tuple, set, str, int, float, bool, type(None))):
+            elif isinstance(obj, ClassVal):
+                self.class_attrs[(obj.qualname, t.attr)] = v  # class attribute rebound at run time (e.g. cls.reference_dataset)
+            elif isinstance(obj, (ModuleInfo, FuncInfo, dict, list, tuple, set, str, int, float, bool, type(None))):
                 raise Unmodelled(f"{f.qualname}: attribute store on {type(obj).__name__} ({src(t)}) not modelled")
             else:
                 setattr(obj, t.attr, v)  # mock object handed in by the check
@@ -240,6 +294,8 @@ class Interp:
             return env[name]
         if name in ("True", "False", "None"):
             return {"True": True, "False": False, "None": None}[name]
+        if name in ("set", "frozenset", "dict", "list", "tuple", "str") and name not in f.module.assigns and name not in f.module.imports:
+            return {"set": set, "frozenset": frozenset, "dict": dict, "list": list, "tuple": tuple, "str": str}[name]
         return self.module_name(f.module, name, f)
 
     def module_name(self, m: ModuleInfo, name: str, f: FuncInfo) -> Any:
@@ -337,6 +393,8 @@ class Interp:
             return True
         if isinstance(e, ast.BinOp):
             return self.binop(e.op, self.eval(e.left, env, f), self.eval(e.right, env, f), e)
+        if isinstance(e, ast.Slice):
+            return slice(*(self.eval(x, env, f) if x is not None else None for x in (e.lower, e.upper, e.step)))
         if isinstance(e, ast.Subscript):
             obj = self.eval(e.value, env, f)
             key = self.eval(e.slice, env, f)
@@ -393,18 +451,22 @@ class Interp:
         raise Unmodelled(f"{f.qualname}:{getattr(e, 'lineno', 0)} expression {type(e).__name__} not modelled: {src(e)[:60]}")
 
     def comprehension(self, e: Any, env: Dict[str, Any], f: FuncInfo) -> Any:
-        if len(e.generators) != 1:
-            raise Unmodelled("nested comprehension")
-        g = e.generators[0]
-        it = self.eval(g.iter, env, f)
-        if isinstance(it, dict):
-            it = list(it.keys())
-        out = []
-        for x in list(it):
-            env2 = dict(env)
-            self.assign(g.target, x, env2, f)
-            if all(self.truth(self.eval(c, env2, f)) for c in g.ifs):
-                out.append(self.eval(e.elt, env2, f))
+        out: List[Any] = []
+
+        def rec(k: int, env_k: Dict[str, Any]) -> None:
+            if k == len(e.generators):
+                out.append(self.eval(e.elt, env_k, f))
+                return
+            g = e.generators[k]
+            it = self.eval(g.iter, env_k, f)
+            if isinstance(it, dict):
+                it = list(it.keys())
+            for x in list(it):
+                env2 = dict(env_k)
+                self.assign(g.target, x, env2, f)
+                if all(self.truth(self.eval(c, env2, f)) for c in g.ifs):
+                    rec(k + 1, env2)
+        rec(0, env)
         return set(out) if isinstance(e, ast.SetComp) else out
 
     def compare(self, op: ast.cmpop, a: Any, b: Any, e: ast.AST) -> bool:
@@ -463,6 +525,10 @@ class Interp:
         if isinstance(base, ClassVal):
             if e.attr == "__name__":
                 return base.short
+            ci0 = self.P.classes.get(base.qualname)
+            for c0 in ([ci0] + [x for x in self.P.mro(ci0)[1:]] if ci0 is not None else []):
+                if (c0.qualname, e.attr) in self.class_attrs:
+                    return self.class_attrs[(c0.qualname, e.attr)]
             ci = self.P.classes.get(base.qualname)
             if ci is not None:
                 got = self.P.lookup_attr(ci, e.attr)
@@ -472,6 +538,8 @@ class Interp:
                 mm = self.P.lookup_method(ci, e.attr)
                 if mm:
                     return ("boundmethod", mm, base)
+        if base in (set, frozenset, dict, list, tuple, str) and e.attr in ("intersection", "union", "difference", "fromkeys", "join"):
+            return getattr(base, e.attr)
         if not isinstance(base, (ClassVal, ExternalObj, ExcVal, ModuleInfo, FuncInfo, dict, list, tuple, set, str, int, float, bool, type(None))) \
                 and hasattr(base, e.attr):
             return getattr(base, e.attr)  # object handed in by the check through `externals`
@@ -532,6 +600,23 @@ class Interp:
                 raise Unmodelled(f"isinstance in {src(e)[:50]}")
             if name in ("any", "all"):
                 return {"any": any, "all": all}[name](self.truth(x) for x in args[0])
+            if name == "sum":
+                return sum(*args)
+            if name == "range":
+                return list(range(*args))
+            if name in ("max", "min") and name not in self.externals:
+                fnk = kwargs.get("key")
+                seq = list(args[0]) if len(args) == 1 else list(args)
+                if not seq:
+                    raise Raised(ExcVal("ValueError", None, {"expr": src(e)}, e.lineno))
+                keyf = (lambda x: self._apply(fnk, [x])) if fnk is not None else (lambda x: x)
+                return (max if name == "max" else min)(seq, key=keyf)
+            if name == "reduce" and name not in self.externals:
+                fn_, seq = args[0], list(args[1])
+                acc = args[2] if len(args) > 2 else seq.pop(0)
+                for x in seq:
+                    acc = self._apply(fn_, [acc, x])
+                return acc
             if name in self.externals:
                 return self.externals[name](*args, **kwargs)
         if isinstance(fn, ast.Attribute):
@@ -557,6 +642,9 @@ class Interp:
                 if fn.attr == "add":
                     base.add(args[0])  # type: ignore[union-attr]
                     return None
+                if fn.attr == "update":
+                    base.update(*args)  # type: ignore[union-attr]
+                    return None
                 if fn.attr == "pop":
                     if not base:
                         raise Raised(ExcVal("KeyError", None, {"expr": src(e)}, e.lineno))
@@ -577,6 +665,17 @@ class Interp:
                     return base.get(args[0], args[1] if len(args) > 1 else None)
                 if fn.attr in ("keys", "values", "items"):
                     return list(getattr(base, fn.attr)())
+                if fn.attr == "pop":
+                    if args[0] not in base and len(args) < 2:
+                        raise Raised(ExcVal("KeyError", None, {"expr": src(e)}, e.lineno))
+                    return base.pop(*args)
+                if fn.attr == "setdefault":
+                    return base.setdefault(*args)
+                if fn.attr == "update":
+                    base.update(*args, **kwargs)
+                    return None
+                if fn.attr == "copy":
+                    return dict(base)
             if isinstance(base, ClassVal):
                 ci = self.P.classes.get(base.qualname)
                 mm = self.P.lookup_method(ci, fn.attr) if ci else None
@@ -619,6 +718,15 @@ class Interp:
             amap[n_] = v_
         amap.update(kwargs)
         return self.call(g, amap)
+
+    def _apply(self, fn: Any, args: List[Any]) -> Any:
+        if isinstance(fn, FuncInfo):
+            return self._call_func(fn, args, {}, bound=None)
+        if isinstance(fn, tuple) and fn and fn[0] == "boundmethod":
+            return self._call_func(fn[1], args, {}, bound=fn[2])
+        if callable(fn):
+            return fn(*args)
+        raise Unmodelled(f"value {fn!r} is not callable in the model")
 
     def _call_func(self, g: FuncInfo, args: List[Any], kwargs: Dict[str, Any], bound: Optional[ClassVal]) -> Any:
         a = g.node.args  # type: ignore[attr-defined]
